@@ -6,7 +6,7 @@ for d in /verif/seeded/*/; do
   grep -q '"suite_confirmed"' $d/meta.json && continue
   [ -d $wt ] || { echo "$name: no worktree"; continue; }
   cd $wt && git checkout -q -- . && git apply $d/patch.diff || { echo "$name: patch does not apply"; continue; }
-  out=$(PYTHONPATH=$wt/src /venv/bin/python -m pytest -q -p no:cacheprovider --timeout=900 -n ${NPROC:-8} src/grid/tests 2>&1 | tail -1)
+  out=$(PYTHONPATH=$wt/src /venv/bin/python -m pytest -q -rf -p no:cacheprovider --timeout=900 -n ${NPROC:-8} src/grid/tests 2>&1 | grep -E "^FAILED|passed|failed" | tail -4 | tr "\n" " ")
   git checkout -q -- .
   /venv/bin/python - "$d/meta.json" "$out" <<'PY'
 import json, sys
